@@ -77,9 +77,10 @@ def c17_locale(prop, tier, seed, agg):
              {'config': 'LC_ALL=C PYTHONCOERCECLOCALE=0 -X utf8=0 (preferred encoding %s)' % c.get('preferred'), 'stage': c.get('stage'), 'exc': c.get('exc')}]
 
     def rep(clause, detail):
-        os.makedirs(os.path.join(VERIF, 'replays'), exist_ok=True)
+        rd = os.environ.get('DSIM_REPLAYS_DIR') or os.path.join(VERIF, 'replays')
+        os.makedirs(rd, exist_ok=True)
         name = 'C17-locale-%s.json' % hashlib.sha256(clause.encode()).hexdigest()[:10]
-        path = os.path.join(VERIF, 'replays', name)
+        path = os.path.join(rd, name)
         with open(path, 'w') as f:
             json.dump({'property': 'C17', 'clause': clause, 'mode': 'locale', 'script': LOCALE_SCRIPT, 'title': title,
                        'observation': {'clause': clause, 'detail': detail}, 'dsim_version': 1}, f, indent=1)
